@@ -29,12 +29,14 @@
 (*                    the row is padded at its end                         *)
 (*   Sep    = "once"  consecutive tables are written without a blank line  *)
 (*                    between them                                         *)
+(*   Dedup  = "seen"  only the first heading with a given text gets a      *)
+(*                    heading line                                         *)
 (***************************************************************************)
 EXTENDS DocModel, SequencesExt
 
 CONSTANTS Cases,      \* descriptors of the documents explored (see MarkdownMC)
           Expand(_),  \* descriptor -> [els, off, mx, meta]
-          Esc, Header, Merge, Sep
+          Esc, Header, Merge, Sep, Dedup
 
 \* ------------------------------------------------------------- the writer
 Blank == [t |-> "blank"]
@@ -83,7 +85,13 @@ FrontMatter(d) == IF d.meta THEN <<[t |-> "fm", s |-> "---"], [t |-> "fm", s |->
 \* implementation-shaped writer that sets a run of tables off by a single blank line before it.
 AfterElem(d, e) == IF Sep = "once" /\ e < Len(d.els) /\ d.els[e].t = "table" /\ d.els[e + 1].t = "table"
                    THEN <<>> ELSE <<Blank>>
-DocLines(d) == FrontMatter(d) \o Concat([e \in 1..Len(d.els) |-> ElemLines(d.els[e], d) \o AfterElem(d, e)])
+\* Dedup = "seen" is the implementation-shaped writer that gives a heading line only to the FIRST
+\* heading with a given text and writes a later heading of the same text as a plain line
+SeenBefore(d, e) == \E x \in 1..(e - 1) : d.els[x].t = "heading" /\ d.els[x].w = d.els[e].w
+ElemLinesAt(d, e) == IF Dedup = "seen" /\ d.els[e].t = "heading" /\ SeenBefore(d, e)
+                     THEN <<[t |-> "p", s |-> d.els[e].w]>>
+                     ELSE ElemLines(d.els[e], d)
+DocLines(d) == FrontMatter(d) \o Concat([e \in 1..Len(d.els) |-> ElemLinesAt(d, e) \o AfterElem(d, e)])
 
 \* ------------------------------------------------------------- the reader
 \* (GFM 4.10 tables, CommonMark 4.2 ATX headings, 5.2/5.3 list items)
